@@ -33,8 +33,8 @@ func (c15) Assumptions() []string {
 	return []string{"the library keeps attaching the pprof labels jrpc-mode/jrpc-uuid to server connection goroutines (handler goroutines inherit them); if the labels vanish the leak oracle reports inconclusive, not held", "8 s grace"}
 }
 
-var c15Causes = []string{"closer", "FIN", "RST", "srvcancel"}
-var c15Work = []string{"unary", "notif", "stream", "reverse", "all", "none"}
+var c15Causes = []string{"closer", "FIN", "RST", "srvcancel", "midFIN"}
+var c15Work = []string{"unary", "notif", "stream", "reverse", "all", "none", "stream-noclose"}
 
 func (c15) Plan(tier string, seed int64) []core.Scenario {
 	var out []core.Scenario
@@ -211,6 +211,7 @@ func c15run(sc core.Scenario, r *core.R) {
 	baseline := serverConnGoroutines()
 	env := NewEnv(EnvOpt{Rev: true, ServerOpts: []jsonrpc.ServerOption{jsonrpc.WithServerPingInterval(50 * time.Millisecond)}})
 	defer env.Shutdown()
+	env.Px.DrainFor = core.Grace + 2*time.Second // after a FIN the proxy keeps watching for the server's own FIN
 	pol := noisePolicy(sc)
 	if sc.I("noise") == 2 {
 		pol.Skew = map[string]time.Duration{"ws.exit.begin": 2 * time.Millisecond, "h.lazy.acquire": time.Millisecond}
@@ -267,6 +268,18 @@ func c15run(sc core.Scenario, r *core.R) {
 		}()
 		toks = append(toks, t)
 	}
+	if work == "stream-noclose" || (work == "all" && react%2 == 1) {
+		// a producer that returns when its context is cancelled without closing its channel
+		t := Tok("s")
+		go func() {
+			ch, err := cl.Sub(bg, t, 3, svc.SNeverClose)
+			if err == nil && ch != nil {
+				for range ch {
+				}
+			}
+		}()
+		toks = append(toks, t)
+	}
 	if want("reverse") {
 		t := Tok("r")
 		cl.RevSvc.Hold(t + ".r0")
@@ -311,6 +324,16 @@ func c15run(sc core.Scenario, r *core.R) {
 		env.Px.KillAll(wsproxy.RST)
 	case "srvcancel":
 		env.CancelServerContexts()
+	case "midFIN":
+		// the client's stream ends in the middle of a frame: header and half of the payload, then FIN
+		fired := make(chan struct{})
+		env.Px.Arm(&wsproxy.Fault{Kind: wsproxy.FIN, Dir: wsproxy.C2S, Pos: 2, Match: func(fi wsproxy.FrameInfo) bool { return fi.Opcode == 1 && fi.Len > 2000 }, OnFire: func() { close(fired) }})
+		mt := Tok("m")
+		go cl.Echo(bg, mt, strings.Repeat("p", 4096))
+		if !core.WaitCh(fired, core.Grace) {
+			r.Inconclusive("the mid-frame fault never fired")
+			return
+		}
 	}
 	// ---- oracle 1: every captured handler context is done
 	for _, t := range toks {
@@ -355,6 +378,13 @@ func c15run(sc core.Scenario, r *core.R) {
 			}
 		}
 		r.Violate("goroutine-leak:"+site, "%d library goroutine stack group(s) still retained for the dead connection %v after all its handlers returned (cause %s, work %s, reaction %d, flood %v):\n%s", n, core.Grace, cause, work, react, flood, sb.String())
+	}
+	if cause == "FIN" || cause == "midFIN" {
+		// ---- oracle 3: the server gives its socket back (the proxy, which half-closed, sees the server's FIN)
+		if !core.Eventually(core.Grace, func() bool { return env.Px.ServerEOFs() >= 1 }) {
+			r.Violate("socket-not-released:"+cause, "the server never closed its side of the connection (%v after the peer's stream ended by %s and all handlers returned): the socket is retained; events: %s", core.Grace, cause, core.Log.Tail(20))
+		}
+		r.Obs("server_sockets_released", int64(env.Px.ServerEOFs()))
 	}
 	if !labelled {
 		r.Inconclusive("no goroutine carried the jrpc-mode=wsserver label while the connection was alive: the leak oracle is blind")
